@@ -1,3 +1,4 @@
+import Cctp.Lemmas.Batch
 import Cctp.Lemmas.Typed
 import Cctp.Props.C16
 /-
@@ -262,5 +263,35 @@ theorem used_list_exact (ext : Ext) (st : Store) (hg : Good ext st) (hr : InRang
 /-! non-vacuity: a used pair in a concrete store; a pair in range -/
 example : isUsed [(Key.usedNonce 3 7, .nonce 3 7)] 3 7 = true := by decide
 example : (3 : Nat) < 2 ^ 32 ∧ (7 : Nat) < 2 ^ 64 := by decide
+
+
+/-! ### transactions with several messages
+  A chain is a list of transactions, each a list of messages run on one branch and committed all-or-nothing
+  (`Model/Batch.lean`).  `txResults` are the results of the messages of the committed transactions; `committed` is
+  the flat history of those messages. -/
+
+/-- **At most one receive per (source domain, nonce) ever takes effect**, over any list of transactions of any
+    size — including a transaction that carries the same attested message twice (it fails as a whole). -/
+theorem at_most_one_success_txs (ext : Ext) (cfg : Cfg) (txs : List Txn) (w : World) (hs : w.settle = w) (d n : Nat)
+    (hd : d < 2 ^ 32) (hn : n < 2 ^ 64) :
+    successes (d, n) (committed ext cfg w txs) (txResults ext cfg w txs) ≤ 1 ∧
+    (isUsed w.store d n = true → successes (d, n) (committed ext cfg w txs) (txResults ext cfg w txs) = 0) := by
+  rw [txResults, runTxs_results ext cfg txs w hs]
+  exact at_most_one_success ext cfg _ w d n hd hn
+
+theorem used_monotone_txs (ext : Ext) (cfg : Cfg) (txs : List Txn) (w : World) (hs : w.settle = w) (d n : Nat)
+    (hd : d < 2 ^ 32) (hn : n < 2 ^ 64) (hu : isUsed w.store d n = true) :
+    isUsed (runTxs ext cfg w txs).1.store d n = true := by
+  rw [runTxs_flatten ext cfg txs w hs]
+  exact used_monotone ext cfg w _ d n hd hn hu
+
+/-- a pair is used after a list of transactions only if it was used before or a receive for it succeeded in a
+    transaction that COMMITTED (a receive inside a transaction that later failed consumes nothing). -/
+theorem used_only_if_txs (ext : Ext) (cfg : Cfg) (txs : List Txn) (w : World) (hs : w.settle = w) (d n : Nat)
+    (hd : d < 2 ^ 32) (hn : n < 2 ^ 64) (hu : isUsed (runTxs ext cfg w txs).1.store d n = true) :
+    isUsed w.store d n = true ∨ 1 ≤ successes (d, n) (committed ext cfg w txs) (txResults ext cfg w txs) := by
+  rw [runTxs_flatten ext cfg txs w hs] at hu
+  rw [txResults, runTxs_results ext cfg txs w hs]
+  exact used_only_if ext cfg _ w d n hd hn hu
 
 end Cctp.C02
